@@ -467,6 +467,7 @@ PROPS = {
                       "free buffers).",
     },
     "C09": {
+        "generated": ["gopools2v"],
         "onep": True,
         "generated": ["gowrites2v"],
         "rule": "real client -> real server over 5 transports {in-memory, tcp, unix, http-connect, websocket} x 5 codecs {raw bytes, JSON, "
@@ -475,7 +476,7 @@ PROPS = {
                 "thorough tier)}, 0-3 binary-safe metadata pairs (NUL, non-UTF-8, '=&%', empty and 2000-byte values), 10 % one-way, 50 % "
                 "with a Reply value that already holds something; then 6 x 4 (thorough 12 x 10) concurrent calls per client. On the "
                 "in-memory transport both directions are tapped and the frames compared with the model's. every case is distinct",
-        "theorems": ["C09_end_to_end", "C09_compression_is_invisible", "C09_concurrent_callers"],
+        "theorems": ["C09_end_to_end", "C09_compression_is_invisible", "C09_concurrent_callers", "C09_pooled_arguments_have_one_owner"],
         "assumptions": ["the serialization codecs round-trip and only the zero value encodes to nothing (premises on encoding/json, "
                         "gogo/protobuf, vmihailenco/msgpack, apache/thrift; exercised, not proved)",
                         "compress/gzip inverts (premise; the harness checks that every compressed payload on the wire unzips to the codec's bytes)",
